@@ -27,7 +27,7 @@
 (***************************************************************************)
 EXTENDS Naturals, Sequences, FiniteSets, TLC, Json, SequencesExt, FiniteSetsExt
 
-CONSTANTS Scope,       \* "small" | "mid" | "full" | "ext" | "bad": slice of the input space enumerated by Init
+CONSTANTS Scope,       \* "tiny" | "small" | "mid" | "full" | "ext" | "bad" | "pick": slice of the input space enumerated by Init
           OneByOne,  \* TRUE: one node per closure step in any order (confluence); FALSE: one layer per step
           Mutant       \* "none" for the real design; other values are self-test mutants TLC must reject
 
@@ -66,9 +66,20 @@ Down(G, x, y) == \/ E_io(G, x, y) \/ E_lroResp(G, x, y) \/ E_lroMeta(G, x, y) \/
 UpRel(G, x, y) == Down(G, x, y) \/ E_parent(G, x, y)
 
 Rel(G, u, x, y) == IF u THEN UpRel(G, x, y) ELSE Down(G, x, y)
-Succ(G, u, S) == {y \in Nodes(G) : \E x \in S : Rel(G, u, x, y)}
+
+\* the same list once more, set-valued (what one node needs), and the closure as a recursive definition:
+\* an independent formulation that the step actions are compared with (Inv_Decl)
+O_io(G, x)     == UNION {{r.inp, r.out} : r \in {q \in G.rpcs : RpcName(q) = x}}
+O_lro(G, x)    == UNION {{r.resp, r.meta} : r \in {q \in G.rpcs : RpcName(q) = x /\ q.kind = "lro"}}
+O_poll(G, x)   == UNION {PollOf(G, r.opsvc) : r \in {q \in G.rpcs : RpcName(q) = x /\ q.opsvc # ""}}
+O_field(G, x)  == {f.t : f \in {h \in G.fields : h.m = x}}
+O_nested(G, x) == {e.c : e \in {h \in G.parent : h.p = x}}
+O_ref(G, x)    == {d.m : d \in {k \in G.res : k.m # "" /\ \E f \in G.refs : f.m = x /\ f.r = k.r}}
+O_parent(G, x) == {e.p : e \in {h \in G.parent : h.c = x}}
+Out(G, u, x) == O_io(G, x) \cup O_lro(G, x) \cup O_poll(G, x) \cup O_field(G, x) \cup O_nested(G, x) \cup O_ref(G, x)
+                \cup (IF u THEN O_parent(G, x) ELSE {})
 RECURSIVE Close(_, _, _)
-Close(G, u, S) == LET T == S \cup Succ(G, u, S) IN IF T = S THEN S ELSE Close(G, u, T)
+Close(G, u, S) == LET T == S \cup UNION {Out(G, u, x) : x \in S} IN IF T = S THEN S ELSE Close(G, u, T)
 
 \* well-formed graphs ("descriptor sets protoc would accept", as far as this abstraction can say)
 WF(G) == /\ G.msgs \cap G.enums = {} /\ Types(G) \cap G.deps = {} /\ RpcNames(G) \cap (Types(G) \cup G.deps) = {}
@@ -150,6 +161,7 @@ SlotSpace ==
                                 {"Outer.Inner", "Meta"}, {"C", "Kind2"})
     [] Scope = "full"  -> Slots(A1, A2, BB, CC, RF, LR, RS)
     [] Scope = "ext"   -> Slots({"none", "B", "Outer.Inner"}, {"none", "Outer.Kind"}, {"none", "C"}, {"none"}, {"none", "Res"}, {"B"}, {"none", "Kind2"})
+    [] Scope = "tiny"  -> Slots({"B", "Outer.Inner"}, {"Outer.Kind"}, {"C"}, {"B"}, {"Res"}, {"Outer.Inner"}, {"Kind2"})
     [] OTHER           -> Slots({"B"}, {"Kind"}, {"C"}, {"none"}, {"Res"}, {"B"}, {"none"})
 Graphs == IF Scope = "ext" THEN {ExtGraph(s) : s \in SlotSpace} ELSE {StdGraph(s) : s \in SlotSpace}
 
@@ -201,8 +213,8 @@ Frontier(u, S) == {y \in Nodes(g) : \E x \in S : StepRel(g, u, x, y)} \ S
 
 StepReach == /\ phase = "reach"
              /\ LET F == Frontier(FALSE, reach) IN
-                IF F = {} THEN /\ phase' = "up" /\ up' = reach /\ rankUp' = rank /\ step' = 0
-                               /\ UNCHANGED <<reach, rank>>
+                IF F = {} THEN /\ phase' = "up" /\ up' = reach /\ rankUp' = rank
+                               /\ UNCHANGED <<reach, rank, step>>
                 ELSE \E add \in (IF OneByOne THEN {{x} : x \in F} ELSE {F}) :
                        /\ reach' = reach \cup add
                        /\ rank' = [x \in reach' |-> IF x \in reach THEN rank[x] ELSE step + 1]
@@ -258,7 +270,7 @@ Why(y) == SelectSeq(Kinds, LAMBDA k : \E x \in reach : KindRel(k, x, y))
 -----------------------------------------------------------------------------
 (* Spec |= property (the oracle is checked before it is used)              *)
 TypeOK == /\ phase \in {"validate", "reach", "up", "closed", "done", "failed"}
-          /\ reach \subseteq Nodes(g) /\ up \subseteq Nodes(g) /\ WF(g)
+          /\ reach \subseteq Nodes(g) /\ up \subseteq Nodes(g) /\ (phase = "validate" => WF(g))
 
 \* rejected iff a listed method is unknown or carries another version
 Inv_Fail == /\ (phase = "failed" => Bad)
@@ -275,8 +287,8 @@ Inv_Least == Closed /\ Sel = "prune" =>
 \* the iteration agrees with the independent recursive definition
 Inv_Decl == Closed /\ Sel = "prune" => reach = Close(g, FALSE, Listed) /\ up = Close(g, TRUE, Listed)
 Inv_Interval == Closed => Required \subseteq Permitted /\ reach \subseteq up
-\* monotone in M
-Inv_Mono == Closed /\ Sel = "prune" => \A M2 \in SUBSET Listed : Close(g, FALSE, M2) \subseteq reach /\ Close(g, TRUE, M2) \subseteq up
+\* monotone in M (one element at a time; every M is a case, so this gives M2 \subseteq M => Reach(M2) \subseteq Reach(M) by induction)
+Inv_Mono == Closed /\ Sel = "prune" => \A m \in Listed : Close(g, FALSE, Listed \ {m}) \subseteq reach /\ Close(g, TRUE, Listed \ {m}) \subseteq up
 \* exactly the listed RPCs plus polling methods that a kept extended-operation RPC needs
 Inv_Rpcs == Closed /\ Sel = "prune" =>
               /\ Listed \subseteq KeptRpcs
